@@ -47,7 +47,8 @@ def executed(rnd, pid, flavour, extra=None):
     if rnd.random() < 0.55:
         outcome = ["return", rnd.choice(RETURNS)]
     else:
-        outcome = ["raise", rnd.choice(RAISES)]
+        # a plain function may also raise StopIteration (inside a coroutine Python itself turns it into RuntimeError)
+        outcome = ["raise", rnd.choice(RAISES + (["StopIteration", "StopIteration"] if flavour == "threading" else []))]
     pre = rnd.choice([[], [], [["sleep", 0.005]], [["ctx"]]])
     # what is handed to execute need not be a plain (coroutine) function: anything callable that gives the right thing will do
     how = rnd.choice(["function", "function", "lambda", "wrapped", "partial", "object", "method"])
